@@ -44,8 +44,9 @@ def main():
     demo = os.path.join(work, "demo.py")
     open(demo, "w").write("\n".join(demo_src))
     # (2) demonstration
-    d_with = sh(["/venv/bin/python", os.path.abspath(demo)], env=dict(env, PYTHONPATH=copy), cwd=work, timeout=300)
-    d_without = sh(["/venv/bin/python", os.path.abspath(demo)], env=dict(env, PYTHONPATH="/repo"), cwd=work, timeout=300)
+    helper_dir = os.path.dirname(os.path.abspath(sys.argv[4]))     # demos may import helper modules written next to them
+    d_with = sh(["/venv/bin/python", os.path.abspath(demo)], env=dict(env, PYTHONPATH=copy + os.pathsep + helper_dir), cwd=work, timeout=300)
+    d_without = sh(["/venv/bin/python", os.path.abspath(demo)], env=dict(env, PYTHONPATH="/repo" + os.pathsep + helper_dir), cwd=work, timeout=300)
     meta["demo_with_change_rc"] = d_with.returncode
     meta["demo_without_change_rc"] = d_without.returncode
     meta["demo_with_change_out"] = (d_with.stdout + d_with.stderr)[-400:]
